@@ -332,6 +332,8 @@ def evaluate(r, clauses=None):
     ci = 0
     calls = r.calls
     last_op = -1
+    prev_c1 = 0
+    late_idx = getattr(r, 'late_chunks', None) or ()
     for call in calls:
         # apply buffer assignments made by ops before this call's op
         for k in sorted(setbufs):
@@ -340,14 +342,26 @@ def evaluate(r, clauses=None):
                 pend = setbufs[k]
                 model.set_pending(setbufs[k])
         last_op = call['op']
-        chunks = child.chunks[call['c0']:call['c1']]
+        # text that arrived while no call was outstanding (asyncio path) is pending text
+        for c in child.chunks[prev_c1:call['c0']]:
+            if isinstance(c, st):
+                pend = pend + c
+                model.set_pending(model.pending + c)
+        prev_c1 = call['c1']
+        allchunks = child.chunks[call['c0']:call['c1']]
+        # asyncio path: text delivered after the awaited future was already done (deadline tie)
+        # was received during the call but not searched by it: it is pending text afterwards
+        chunks = [c for i, c in enumerate(allchunks) if (call['c0'] + i) not in late_idx]
+        late_text = st()
         E = pend
-        for c in chunks:
+        for i, c in enumerate(allchunks):
             if not isinstance(c, st):
                 if V('C07.type', 'read_nonblocking returned %s in %s mode' % (type(c).__name__, st.__name__), call):
                     return out
                 return out
             E = E + c
+            if (call['c0'] + i) in late_idx:
+                late_text = late_text + c
         plist = call['plist']
         exact = call['api'] == 'exact'
         W = call['sws']
@@ -426,6 +440,8 @@ def evaluate(r, clauses=None):
                 model.commit_eof()
             else:
                 pend = E
+                if late_text:
+                    model.set_pending(model.pending + late_text)
             continue
         # ---- a text match
         idx = val
@@ -502,11 +518,13 @@ def evaluate(r, clauses=None):
                  % (res['j'], len(chunks)), call, model=_res_brief(res)):
                 return out
             return out
-        if (res['index'], res['before'], res['after'], res['rest']) != (idx, before, after, buf):
+        if (res['index'], res['before'], res['after'], res['rest'] + late_text) != (idx, before, after, buf):
             if V('C03.model', 'outcome differs from naive search', call, model=_res_brief(res)):
                 return out
             return out
         model.commit_match(res)
+        if late_text:
+            model.set_pending(model.pending + late_text)
         pend = buf
     for o in r.ops:
         if o['op'] == 'str' and o['out'] != 'ret':
